@@ -17,8 +17,8 @@ size_t harness_max_len() { return 700; }
 
 enum Pol { P_USERPUB, P_PUBFILE, P_KEY, P_CAL, P_GENERAL, P_COUNT };
 static const char *kPolName[] = {"user-publication", "publications-file", "key", "calendar", "general"};
-enum Dev { D_CORRECT, D_LEFT_ALTERED, D_RIGHT_ALTERED, D_INPUT, D_AGGR_COHERENT, D_AGGR_LABEL, D_PUB_COHERENT, D_PUB_LABEL, /* failures: */ D_STATUS, D_STATUS_WITH_CHAIN, D_ERROR_PDU, D_BAD_MAC, D_RESET, D_NO_CHAIN, D_WRONG_ID, D_COUNT };
-static const char *kDevName[] = {"correct", "left-link-altered", "right-link-altered", "other-input-hash", "other-aggr-time(coherent)", "other-aggr-time(label)", "other-pub-time(coherent)", "other-pub-time(label)",
+enum Dev { D_CORRECT, D_LEFT_ALTERED, D_RIGHT_ALTERED, D_INPUT, D_AGGR_COHERENT, D_AGGR_LABEL, D_PUB_COHERENT, D_PUB_LABEL, D_AGGR_OMITTED, /* failures: */ D_STATUS, D_STATUS_WITH_CHAIN, D_ERROR_PDU, D_BAD_MAC, D_RESET, D_NO_CHAIN, D_WRONG_ID, D_COUNT };
+static const char *kDevName[] = {"correct", "left-link-altered", "right-link-altered", "other-input-hash", "other-aggr-time(coherent)", "other-aggr-time(label)", "other-pub-time(coherent)", "other-pub-time(label)", "aggr-time-omitted",
                                  "error-status", "error-status-with-chain", "error-pdu", "bad-mac", "connection-reset", "no-chain", "wrong-request-id"};
 static bool devIsFailure(int d) { return d >= D_STATUS; }
 enum HashMode { H_GENUINE, H_WRONG, H_FOLLOWS };
@@ -39,6 +39,7 @@ static CalChain makeChain(const World &w, uint64_t aggr, uint64_t pub, const Pla
     case D_AGGR_LABEL: cc.aggrTime = (pl.sel & 1) ? aggr + 1 : aggr - 1; break;
     case D_PUB_COHERENT: cc.pubTime = pub + 1 + pl.sel % 50; cc.links = coherentCalLinks(aggr, cc.pubTime, w.salt); break;
     case D_PUB_LABEL: cc.pubTime = pub + 1 + pl.sel % 50; break;
+    case D_AGGR_OMITTED: cc.hasAggrTime = false; break; // an omitted aggregation time stands for the publication time
     default: break;
     }
     return cc;
@@ -73,7 +74,7 @@ static Exp viaExtension(const World &w, const Scenario &sc, const Pub &anchor, c
     const CalChain &c = hyp.chain; std::set<int> codes; std::string why;
     if (rootOf(c) != anchor.hash) { codes.insert(KSI_VER_ERR_PUB_1); why += "root,"; }
     if (c.pubTime != anchor.time) { codes.insert(KSI_VER_ERR_PUB_2); why += "pub-time,"; }
-    if (checkAggrTime && (!c.hasAggrTime || c.aggrTime != w.t)) { codes.insert(KSI_VER_ERR_PUB_2); why += "aggr-time,"; }
+    if (checkAggrTime && (c.hasAggrTime ? c.aggrTime : c.pubTime) != w.t) { codes.insert(KSI_VER_ERR_PUB_2); why += "aggr-time,"; }
     if (c.inputHash != w.aggrRoot) { codes.insert(KSI_VER_ERR_PUB_3); why += "input-hash,"; }
     if (codes.empty()) return bound("extension-reproduces-anchor");
     return failWith(codes, "extension-contradicts:" + why);
